@@ -8,6 +8,7 @@ import (
 	"fmt"
 	"math/big"
 	"strings"
+	"time"
 
 	"github.com/miekg/dns"
 	"github.com/semihalev/sdns/internal/verif/vlib"
@@ -136,7 +137,35 @@ func recaseStr(r *vlib.R, s string) string { return string(recase(r, []byte(s)))
 
 // ---------------------------------------------------------------- RRsets
 
-var rrTypes = []uint16{1, 28, 16, 15, 2, 12, 5, 33, 6, 39, 17, 48, 65280, 13}
+// record types the generator can hand-pack. Name-bearing types whose names
+// RFC 4034 §6.2 / RFC 6840 §5.1 fold, name-bearing types that are signed as
+// published (NSEC, NXT, SVCB, HTTPS, LP, TALINK, NSAP-PTR),
+// and types without names.
+var rrTypes = []uint16{1, 28, 16, 15, 2, 12, 5, 33, 6, 39, 17, 48, 65280, 13,
+	3, 4, 7, 8, 9, 14, 21, 26, 35, 36, 18, 47, 47, 64, 65, 107, 58, 23, 30}
+
+// nameLayout: octets before the names, number of consecutive names (0 = none known here).
+func nameLayout(typ uint16, rd []byte) (skip, names int) {
+	switch typ {
+	case 2, 3, 4, 5, 7, 8, 9, 12, 39, 23, 47, 30:
+		return 0, 1
+	case 15, 18, 21, 36, 64, 65, 107:
+		return 2, 1
+	case 33:
+		return 6, 1
+	case 6, 14, 17, 58:
+		return 0, 2
+	case 26:
+		return 2, 2
+	case 35:
+		off := 4
+		for i := 0; i < 3 && off < len(rd); i++ {
+			off += 1 + int(rd[off])
+		}
+		return off, 1
+	}
+	return 0, 0
+}
 
 func genRdata(r *vlib.R, typ uint16) []byte {
 	name := func() []byte { return joinWireName(genLabels(r, 0, 3, false)) }
@@ -163,10 +192,26 @@ func genRdata(r *vlib.R, typ uint16) []byte {
 			out = append(out, s...)
 		}
 		return out
-	case 15:
+	case 15, 18, 21, 36, 64, 65, 107: // MX AFSDB RT KX; SVCB HTTPS (no parameters) LP
 		return append(r.Bytes(2), name()...)
-	case 2, 12, 5, 39:
+	case 2, 12, 5, 39, 3, 4, 7, 8, 9, 23: // single name
 		return name()
+	case 47, 30: // NSEC, and NXT which the library reads the same way: next name + a type bitmap
+		return append(name(), vlib.Pick(r, [][]byte{{0, 1, 0x40}, {0, 6, 0x40, 0, 0, 0, 0, 3}, {0, 1, 0x62, 1, 1, 0x80}})...)
+	case 14, 58: // MINFO; TALINK
+		return append(name(), name()...)
+	case 26: // PX
+		return append(append(r.Bytes(2), name()...), name()...)
+	case 35: // NAPTR
+		out := r.Bytes(4)
+		for i := 0; i < 3; i++ {
+			n := r.Intn(6)
+			out = append(out, byte(n))
+			for j := 0; j < n; j++ {
+				out = append(out, labelAlphabet[r.Intn(len(labelAlphabet))])
+			}
+		}
+		return append(out, name()...)
 	case 33:
 		return append(r.Bytes(6), name()...)
 	case 6:
@@ -219,24 +264,24 @@ func genRRset(r *vlib.R, owner []byte, typ uint16) []wireRR {
 // recaseRdataNames changes letter case inside RDATA (for name-bearing types
 // the canonical form folds it away again; elsewhere it makes a new record).
 func recaseRdataNames(r *vlib.R, typ uint16, rd []byte) []byte {
-	switch typ {
-	case 15, 2, 12, 5, 39, 33, 6, 17:
-		skip := 0
-		if typ == 15 {
-			skip = 2
-		} else if typ == 33 {
-			skip = 6
-		}
-		out := append([]byte(nil), rd...)
-		off := skip
+	skip, names := nameLayout(typ, rd)
+	if names == 0 {
+		return rd
+	}
+	out := append([]byte(nil), rd...)
+	off := skip
+	for n := 0; n < names; n++ {
 		for off < len(out) && out[off] != 0 {
 			l := int(out[off])
+			if off+1+l > len(out) {
+				return rd
+			}
 			copy(out[off+1:off+1+l], recase(r, out[off+1:off+1+l]))
 			off += 1 + l
 		}
-		return out
+		off++
 	}
-	return rd
+	return out
 }
 
 func wiresToken(rrs []wireRR) string {
@@ -789,8 +834,8 @@ func tamper(r *vlib.R, sig []byte, n *big.Int) [][]byte {
 	cp := func() []byte { return append([]byte(nil), sig...) }
 	half := len(sig) / 2
 	out = append(out, flip, sig[:len(sig)-1], sig[1:], append([]byte{0}, sig...), append(cp(), 0), nil,
-		append(cp(), r.Bytes(1+r.Intn(8))...), // a valid signature followed by extra octets
-		append(cp(), sig...),                  // ... or by itself
+		append(cp(), r.Bytes(1+r.Intn(8))...),                     // a valid signature followed by extra octets
+		append(cp(), sig...),                                      // ... or by itself
 		append(append([]byte(nil), sig[half:]...), sig[:half]...), // halves swapped
 		sig[:half])
 	if n != nil {
@@ -1033,7 +1078,140 @@ type vcase struct {
 }
 
 func (c vcase) line() string {
-	return "vfy sig k=" + keyToken(c.k) + " s=" + sigToken(c.sig) + " rr=" + wiresToken(c.rrs)
+	h, x := sigCols(c.k, c.sig, c.rrs)
+	rr := "-"
+	if len(c.rrs) > 0 {
+		rr = wiresToken(c.rrs)
+	}
+	return "vfy sig k=" + keyToken(c.k) + " s=" + sigToken(c.sig) + " rr=" + rr + " o=" + ownersCol(c.rrs) + " c=" + canonCol(c.rrs) +
+		" sw=" + signerWireCol(c.sig) + " h=" + h + " x=" + x
+}
+
+func msgLine(zone string, keys []*dns.DNSKEY, sigs []*dns.RRSIG, rrs []wireRR, nAns int) string {
+	tok := func(x []string) string {
+		if len(x) == 0 {
+			return "-"
+		}
+		return strings.Join(x, ";")
+	}
+	var ks, ss []string
+	for _, k := range keys {
+		ks = append(ks, keyToken(k))
+	}
+	for _, s := range sigs {
+		ss = append(ss, sigToken(s))
+	}
+	rr := "-"
+	if len(rrs) > 0 {
+		rr = wiresToken(rrs)
+	}
+	sw, per, hx := msgCols(keys, sigs, rrs, time.Now().Unix())
+	return fmt.Sprintf("vfy msg z=%s k=%s s=%s rr=%s a=%d o=%s c=%s sw=%s p=%s hx=%s", hexStr(zone), tok(ks), tok(ss), rr, nAns,
+		ownersCol(rrs), canonCol(rrs), sw, per, hx)
+}
+
+// genMessage drives VerifyRRSIG: one to three RRsets of one zone signed by
+// one key, then one thing wrong (or nothing) per message.
+func (w *world) genMessage() {
+	r := w.r
+	w.out("vfy new")
+	s := vlib.Pick(r, w.others)
+	if r.Chance(1, 3) {
+		s = w.rsa[(2+r.Intn(2))*len(exponents)+vlib.Pick(r, []int{0, 1, 4})] // 1024 / 1025 bits; e = 3, 65537, 2^32+1
+	}
+	first, raw, ok := w.baseCaseOpt(s, baseOpts{plain: r.Chance(2, 3)})
+	if !ok || first.k.Flags&256 == 0 || first.k.Protocol != 3 {
+		return
+	}
+	zw, _ := packName(first.sig.SignerName)
+	zoneL, _, _ := splitWireName(zw)
+	cases := []vcase{first}
+	for n := r.Intn(3); n > 0; n-- {
+		c, _, ok := w.baseCaseOpt(s, baseOpts{zone: zoneL, key: first.k, plain: r.Chance(2, 3)})
+		if ok && !(c.rrs[0].typ == 5 || c.rrs[0].typ == 39) { // no CNAME/DNAME pairs: synthesis is not modelled
+			cases = append(cases, c)
+		}
+	}
+	for scenario := 0; scenario < 12; scenario++ {
+		if scenario > 0 && r.Chance(1, 2) {
+			continue
+		}
+		keys := []*dns.DNSKEY{first.k}
+		var sigs []*dns.RRSIG
+		var rrs []wireRR
+		for _, c := range cases {
+			rrs = append(rrs, c.rrs...)
+			sigs = append(sigs, c.sig)
+		}
+		nAns := len(rrs)
+		victim := r.Intn(len(cases))
+		switch scenario {
+		case 1: // one RRset has no signature
+			sigs = append(sigs[:victim:victim], sigs[victim+1:]...)
+		case 2: // ... only a bad one
+			bad := *sigs[victim]
+			bad.Signature = b64(r.Bytes(max(1, len(raw))))
+			sigs[victim] = &bad
+		case 3: // ... only an expired / not yet valid one
+			old := *sigs[victim]
+			if r.Bool() {
+				old.Expiration = 1200000000
+			} else {
+				old.Inception = 3400000000
+			}
+			sigs[victim] = &old
+		case 4: // a record of another zone: fatal in the answer section, ignored in the authority section
+			other := wireRR{owner: joinWireName(genLabels(r, 1, 2, true)), typ: 1, class: 1, ttl: 60, rdata: r.Bytes(4)}
+			if r.Bool() {
+				rrs = append([]wireRR{other}, rrs...)
+				nAns++
+			} else {
+				rrs = append(rrs, other)
+			}
+		case 5: // an unsigned NS RRset: ignored in the authority section, needs a signature in the answer section
+			ns := wireRR{owner: joinWireName(zoneL), typ: 2, class: first.k.Hdr.Class, ttl: 60, rdata: joinWireName(genLabels(r, 1, 2, true))}
+			if r.Bool() {
+				rrs = append(rrs, ns)
+			} else {
+				rrs = append([]wireRR{ns}, rrs...)
+				nAns++
+			}
+		case 6:
+			sigs = nil
+		case 7:
+			keys = nil
+		case 8: // a decoy key with the same tag in front, a bad signature in front of the good one
+			if d := collidingKey(r, first.k); d != nil {
+				keys = append([]*dns.DNSKEY{d}, keys...)
+			}
+			bad := *sigs[victim]
+			bad.Signature = b64(r.Bytes(max(1, len(raw))))
+			sigs = append([]*dns.RRSIG{&bad}, sigs...)
+		case 9: // owners of one RRset in different case: not an RRset
+			c := cases[victim]
+			ls, _, _ := splitWireName(c.rrs[0].owner)
+			extra := c.rrs[0]
+			extra.owner = joinWireName(recaseLabels(r, ls))
+			extra.rdata = genRdata(r, extra.typ)
+			rrs = append(rrs, extra)
+			nAns = len(rrs)
+		case 10: // part of the message moved to the authority section
+			nAns = r.Intn(len(rrs) + 1)
+		case 11: // the key offered is not the signer's / not a zone key
+			k2 := *first.k
+			if r.Bool() {
+				k2.Flags &^= 256
+			} else {
+				k2.Hdr.Name = pres(joinWireName(genLabels(r, 1, 2, true)))
+			}
+			keys = []*dns.DNSKEY{&k2}
+		}
+		zone := first.sig.SignerName
+		if r.Chance(1, 8) {
+			zone = recaseStr(r, strings.TrimSuffix(zone, "."))
+		}
+		w.out(msgLine(zone, keys, sigs, rrs, nAns))
+	}
 }
 
 // collidingKey builds key material of the same length with the same RFC
@@ -1059,15 +1237,35 @@ func collidingKey(r *vlib.R, k *dns.DNSKEY) *dns.DNSKEY {
 	return nil
 }
 
-func (w *world) baseCase(s *signer) (vcase, []byte, bool) {
+func (w *world) baseCase(s *signer) (vcase, []byte, bool) { return w.baseCaseOpt(s, baseOpts{}) }
+
+func (w *world) baseCaseType(s *signer, forceType uint16) (vcase, []byte, bool) {
+	return w.baseCaseOpt(s, baseOpts{typ: forceType})
+}
+
+// baseOpts: typ != 0 fixes the record type and makes sure the names inside
+// the RDATA carry upper-case letters; zone / key fix the signer zone and the
+// DNSKEY (several RRsets of one message); class fixes the class.
+type baseOpts struct {
+	typ   uint16
+	zone  [][]byte
+	key   *dns.DNSKEY
+	plain bool // no wildcard
+}
+
+func (w *world) baseCaseOpt(s *signer, o baseOpts) (vcase, []byte, bool) {
 	r := w.r
+	forceType := o.typ
 	zoneL := genLabels(r, 0, 2, r.Chance(5, 6))
+	if o.zone != nil {
+		zoneL = o.zone
+	}
 	extra := genLabels(r, 0, 3, r.Chance(5, 6))
 	ownerL := append(append([][]byte{}, extra...), zoneL...)
 	// wildcard: the signed owner is "*." + closest encloser, the presented owner an expansion of it
 	signedL := ownerL
 	labels := len(ownerL)
-	if len(extra) > 0 && r.Chance(1, 3) {
+	if len(extra) > 0 && r.Chance(1, 3) && !o.plain {
 		ce := ownerL[1+r.Intn(len(extra)):]
 		signedL = append([][]byte{[]byte("*")}, ce...)
 		labels = len(ce)
@@ -1077,7 +1275,29 @@ func (w *world) baseCase(s *signer) (vcase, []byte, bool) {
 	}
 	owner := joinWireName(ownerL)
 	typ := vlib.Pick(r, rrTypes)
+	if forceType != 0 {
+		typ = forceType
+	}
 	rrs := genRRset(r, owner, typ)
+	if o.key != nil {
+		for i := range rrs {
+			rrs[i].class = o.key.Hdr.Class
+		}
+	}
+	if forceType != 0 {
+		for t := 0; t < 30; t++ {
+			upper := false
+			for _, rr := range rrs {
+				if _, n := nameLayout(typ, rr.rdata); n == 0 || bytes.ContainsAny(rr.rdata, "ABCDEFGHIJKLMNOPQRSTUVWXYZ") {
+					upper = true
+				}
+			}
+			if upper {
+				break
+			}
+			rrs = genRRset(r, owner, typ)
+		}
+	}
 	alg := s.alg
 	if s.kind == "rsa" {
 		alg = vlib.Pick(r, []uint8{5, 7, 8, 10})
@@ -1096,6 +1316,10 @@ func (w *world) baseCase(s *signer) (vcase, []byte, bool) {
 	}
 	k := &dns.DNSKEY{Hdr: dns.RR_Header{Name: pres(joinWireName(recaseLabels(r, zoneL))), Rrtype: dns.TypeDNSKEY, Class: rrs[0].class, Ttl: 300},
 		Flags: flags, Protocol: proto, Algorithm: alg, PublicKey: pk}
+	if o.key != nil {
+		k = o.key
+		flags, proto, alg = k.Flags, k.Protocol, k.Algorithm
+	}
 	sf := sigFields{typeCovered: typ, alg: alg, labels: uint8(labels), origTTL: vlib.Pick(r, []uint32{0, 60, 3600, 86400, uint32(r.U64())}),
 		exp: 3500000000, inc: 1000000000, keyTag: refKeyTag(flags, proto, alg, kb)}
 	// sign the RFC form of the *signed* owner (for a wildcard: "*.ce")
@@ -1150,6 +1374,20 @@ func (w *world) variants(c vcase, raw []byte, s *signer) []vcase {
 		add(func(v *vcase) { v.sig.Signature = b64(append(append([]byte(nil), z...), r.Bytes(2)...)) })
 		tz := append(append(append(append([]byte(nil), raw[:s.size]...), 0), raw[s.size:]...), 0)
 		add(func(v *vcase) { v.sig.Signature = b64(tz) })
+	}
+	// key material of every shape, each under the tag a signature naming that key carries, so the
+	// preflight passes and the algorithm's own key parsing is what has to refuse it
+	if kb, err := stdDecode(c.k.PublicKey); err == nil {
+		cpk := func() []byte { return append([]byte(nil), kb...) }
+		shapes := [][]byte{nil, {kb[0]}, kb[:len(kb)-1], kb[1:], kb[:len(kb)/2], append(cpk(), byte(r.U64())),
+			append(cpk(), kb...), append(cpk(), r.Bytes(1+r.Intn(31))...), make([]byte, len(kb))}
+		for _, nb := range shapes {
+			nb := nb
+			add(func(v *vcase) {
+				v.k.PublicKey = b64(nb)
+				v.sig.KeyTag = refKeyTag(v.k.Flags, v.k.Protocol, v.k.Algorithm, nb)
+			})
+		}
 	}
 	w.shapes = len(out)
 	add(func(v *vcase) { v.sig.Signature = wrap(r, v.sig.Signature) })
@@ -1262,35 +1500,6 @@ func (w *world) genVerify() {
 		w.out(vs[j].line())
 		vs = append(vs[:j], vs[j+1:]...)
 	}
-	// the whole-message entry point: decoy key with a colliding tag, a bad and a good signature
-	if r.Chance(1, 2) {
-		keys := []string{keyToken(c.k)}
-		if d := collidingKey(r, c.k); d != nil && r.Chance(2, 3) {
-			keys = append([]string{keyToken(d)}, keys...)
-		}
-		bad := *c.sig
-		bad.Signature = b64(r.Bytes(len(raw)))
-		sigs := []string{sigToken(&bad), sigToken(c.sig)}
-		switch r.Intn(6) {
-		case 0:
-			sigs = sigs[:1]
-		case 1: // expired / not yet valid copy of the good signature only
-			old := *c.sig
-			if r.Bool() {
-				old.Expiration = 1200000000
-			} else {
-				old.Inception = 3400000000
-			}
-			sigs = []string{sigToken(&old)}
-		case 2:
-			sigs = nil
-		}
-		sigTok := "-"
-		if len(sigs) > 0 {
-			sigTok = strings.Join(sigs, ";")
-		}
-		w.out(fmt.Sprintf("vfy msg %s %s %s %s", hexStr(c.sig.SignerName), strings.Join(keys, ";"), sigTok, wiresToken(c.rrs)))
-	}
 }
 
 // sweeps: every algorithm number and every digest type, once per run.
@@ -1314,6 +1523,18 @@ func (w *world) sweeps() {
 	w.out("ds new")
 	for dt := 0; dt < 256; dt++ {
 		w.dsCase(dt)
+	}
+	// every record type the generator knows, validly signed, names inside the RDATA in mixed case
+	w.out("vfy new")
+	seenType := map[uint16]bool{}
+	for _, typ := range rrTypes {
+		if seenType[typ] {
+			continue
+		}
+		seenType[typ] = true
+		if c, _, ok := w.baseCaseType(vlib.Pick(r, w.others), typ); ok {
+			w.out(c.line())
+		}
 	}
 	w.out("vfy new")
 	ed := w.others[2]
@@ -1382,6 +1603,8 @@ func gen(r *vlib.R, n int, tier string, emit func(string)) {
 			w.genSignedData()
 		case k < 87:
 			w.genBind()
+		case k < 92:
+			w.genMessage()
 		default:
 			w.genVerify()
 		}
